@@ -123,6 +123,22 @@ def type_head(t):
     return g.split('::')[-1].strip()
 
 
+def _squash_impl(text):
+    """`a::<impl model::Model<'_>>::f` -> `a::<impl>::f` (balanced brackets)"""
+    out = []
+    i = 0
+    while True:
+        j = text.find('<impl ', i)
+        if j < 0:
+            out.append(text[i:])
+            break
+        out.append(text[i:j])
+        k = find_matching(text, j)
+        out.append('<impl>')
+        i = k + 1
+    return ''.join(out)
+
+
 class CallInfo:
     __slots__ = ('text', 'kind', 'fn', 'model', 'self_ty', 'trait', 'method', 'generics', 'key', 'segs', 'impl_ty',
                  'name')
@@ -174,6 +190,9 @@ class Engine:
         self.cur_harness = ''
         self.uf_cache = {}
         self.callstack = []
+        self.prefix = []
+        self.taken = []
+        self.pending = []
         for mf in self.mfs:
             for fn in mf.fns:
                 fn.src = mf
@@ -216,16 +235,22 @@ class Engine:
             self.uf_cache[k] = f
         return f
 
-    # ------------------------------------------------------------------ forking
+    # ------------------------------------------------------------------ path forking (in-process DFS with replay)
+    def in_replay(self):
+        """True while re-executing the prefix of decisions that leads to this path's fork point: every
+        query in this zone was decided when the prefix was first explored"""
+        return self.nchoose < len(self.prefix)
+
     def choose(self, conds, exhaustive=True):
-        """conds: list of python bools / z3 Bools, mutually exclusive.  Returns the index taken by
-        this process; other feasible alternatives continue in forked processes."""
+        """conds: list of python bools / z3 Bools, mutually exclusive.  Returns the index taken on this
+        path; the other feasible alternatives are queued as decision prefixes and explored later by
+        deterministic re-execution from the start of the harness (no solver queries while replaying)."""
         self.nchoose += 1
         seq = self.nchoose
-        if self.replay is not None and seq in self.replay:
-            i = self.replay[seq]
-            self.add(conds[i])
-            self.decisions.append((seq, i))
+        if seq <= len(self.prefix):
+            i = self.prefix[seq - 1]
+            if conds[i] is not True:
+                self.add(conds[i])
             return i
         feas = []
         n = len(conds)
@@ -242,46 +267,41 @@ class Engine:
                 feas.append(i)
         if not feas:
             raise PathEnd('infeasible', 'no feasible alternative')
-        if len(feas) == 1:
-            i = feas[0]
-            if conds[i] is not True and not (exhaustive and i == n - 1 and False):
-                self.add(conds[i])
-            return i
-        return self._fork(seq, feas, conds)
-
-    def _fork(self, seq, feas, conds):
-        if self.deadline and time.time() > self.deadline:
-            raise Inconclusive('wall-clock budget exhausted')
-        if self.path_counter is not None and self.path_counter.value > self.max_paths:
-            raise Inconclusive('path budget exhausted')
-        for i in feas[1:]:
-            self.stats['forks'] += 1
-            if self.out:
-                self.out.flush()
-            sys.stdout.flush()
-            sys.stderr.flush()
-            got = self.sem.acquire(False) if self.sem is not None else False
-            pid = os.fork()
-            if pid == 0:
-                self.is_root = False
-                self.children = []
-                self.has_token = got
-                self.out = None
-                for k in ('q_branch', 'q_assert', 'sat', 'unsat', 'unknown', 'forks', 'steps'):
-                    self.stats[k] = 0
-                self.stats['solver_s'] = 0.0
-                self.steps_base = self.steps
-                self.add(conds[i])
-                self.decisions.append((seq, i))
-                return i
-            if got:
-                self.children.append(pid)
-            else:
-                self._wait(pid)
         i = feas[0]
-        self.add(conds[i])
-        self.decisions.append((seq, i))
+        if len(feas) > 1:
+            if self.deadline and time.time() > self.deadline:
+                raise Inconclusive('wall-clock budget exhausted')
+            for j in feas[1:]:
+                self.pending.append(self.taken + [j])
+            self.stats['forks'] += len(feas) - 1
+            self.decisions.append((seq, i))
+        self.taken.append(i)
+        if conds[i] is not True:
+            self.add(conds[i])
         return i
+
+    def reset_path(self, prefix):
+        self.solver = z3.Solver()
+        self.solver.set('timeout', self.query_timeout_ms)
+        self.pc = []
+        self.steps = 0
+        self.depth = 0
+        self.inputs = []
+        self.events = []
+        self.decisions = [(k + 1, v) for k, v in enumerate(prefix)][-40:]
+        self.nchoose = 0
+        self.prefix = prefix
+        self.taken = list(prefix)
+        self.stats = {'q_branch': 0, 'q_assert': 0, 'sat': 0, 'unsat': 0, 'unknown': 0, 'solver_s': 0.0, 'forks': 0,
+                      'steps': 0}
+        self.fns_entered = set()
+        self.models_used = set()
+        self.assumptions = set()
+        self.sym_counter = 0
+        self.int_str_origin = {}
+        self.callstack = []
+        self.check_sites = {}
+        self.ascii_ok = set()
 
     def _wait(self, pid):
         while True:
@@ -301,17 +321,12 @@ class Engine:
         self.out.write(json.dumps(rec) + '\n')
 
     def finish_process(self):
-        """called at the end of a path in every process"""
-        for pid in self.children:
-            self._wait(pid)
-        self.children = []
+        """called once when the harness' path tree is exhausted"""
         if self.out:
             self.out.flush()
             self.out.close()
             self.out = None
         if not self.is_root:
-            if self.has_token and self.sem is not None:
-                self.sem.release()
             sys.stdout.flush()
             sys.stderr.flush()
             os._exit(0)
@@ -407,7 +422,7 @@ class Engine:
         if text.endswith(']'):
             # promoted:  path::promoted[N]
             key = text[text.rfind('::') + 2:]
-        segs_t = strip_generics(re.sub(r'<impl [^>]*>', '<impl>', text))
+        segs_t = strip_generics(_squash_impl(text))
         best = None
         for mf in self.mfs:
             for ent in mf.consts.get(key, ()):
@@ -476,6 +491,8 @@ class Engine:
             if val.startswith('const '):
                 val = val[6:]
             return self._eval_const(val)
+        if 'promoted[' in text:
+            raise Unsupported('promoted const body not found: %r' % text)
         # enum / struct constant written as a path or aggregate
         try:
             rv = parse_rvalue(text)
@@ -852,6 +869,9 @@ class Engine:
                     return z3.fpBVToFP(a, ops.F64) if is_sym(a) else ops.bits_float(a)
                 if sty == 'u32' and ty == 'char':
                     return a
+                # NonNull<T> { pointer } -> *const T
+                if ty.startswith('*') and type(a) is Agg and len(a.f) == 1 and type(a.f[0]) is Ref:
+                    return a.f[0]
             return a
         raise Unsupported('cast kind %s' % kind)
 
@@ -928,6 +948,10 @@ class Engine:
                     raise Unsupported('reached `unreachable` in %s bb%d' % (fn.name, bb))
                 else:
                     raise Unsupported('terminator ' + tk)
+        except Unsupported as e:
+            if not getattr(e, 'stack', None):
+                e.stack = list(self.callstack)
+            raise
         finally:
             self.depth -= 1
             self.callstack.pop()
@@ -1144,6 +1168,12 @@ class Engine:
         ci.impl_ty = impl_ty
         fn = self.resolve_path_fn(plain, impl_ty)
         if fn is not None:
+            icp = self.crate_intercept_for(fn)
+            if icp is not None:
+                ci.kind = 'model'
+                ci.model = icp[1]
+                ci.key = 'intercept:' + icp[0]
+                return ci
             ci.kind = 'mir'
             ci.fn = fn
             ci.key = fn.name
@@ -1161,6 +1191,26 @@ class Engine:
             return ci
         ci.kind = 'none'
         return ci
+
+    def crate_intercept_for(self, fn):
+        """crate functions cut at a named boundary (DESIGN 3.3): key = `Type::method` for inherent
+        methods, `module::function` for free functions"""
+        ics = getattr(self, 'crate_intercepts', None)
+        if not ics:
+            return None
+        if fn.impl_span:
+            selfn, tr = self._impl_desc(fn)
+            if tr is None:
+                k = '%s::%s' % (selfn, fn.last)
+            else:
+                k = '%s::%s@%s' % (tr, fn.last, selfn)
+        else:
+            ms = [strip_generics(x) for x in fn.mod_path if not x.startswith('<impl')]
+            k = '::'.join(ms[-2:])
+            if k not in ics and ms and ('fn ' + ms[-1]) in ics:
+                k = 'fn ' + ms[-1]      # rustc prints free functions without their module path
+        f = ics.get(k)
+        return (k, f) if f is not None else None
 
     def _impl_desc(self, fn):
         """(self type name, trait name or None) of the impl block fn lives in"""
